@@ -146,6 +146,9 @@ func ToGo(a *AVP) (*diam.AVP, error) { return ToGoStyle(a, "newavp") }
 // constructor sets it); "literal" = a struct literal (Length left zero). Grouped members are
 // built in the same style.
 func ToGoStyle(a *AVP, style string) (*diam.AVP, error) {
+	if style == "late2" {
+		return late2(a)
+	}
 	d, err := dataStyle(a, style)
 	if err != nil {
 		return nil, err
@@ -170,6 +173,46 @@ var vNames = func() map[[2]uint32]string {
 	}
 	return m
 }()
+
+// late2: a group is wrapped (diam.NewAVP measures it) while the groups nested in it are still empty; they
+// receive their members afterwards through GroupedAVP.AddAVP; only then is the outermost AVP added to a message
+func late2(a *AVP) (*diam.AVP, error) {
+	if a.Kind != "grouped" {
+		return ToGoStyle(a, "newavp")
+	}
+	g := &diam.GroupedAVP{}
+	var fills []func() error
+	for i := range a.Kids {
+		k := &a.Kids[i]
+		if k.Kind != "grouped" {
+			ka, err := ToGoStyle(k, "newavp")
+			if err != nil {
+				return nil, err
+			}
+			g.AVP = append(g.AVP, ka)
+			continue
+		}
+		kg := &diam.GroupedAVP{}
+		g.AVP = append(g.AVP, diam.NewAVP(U32(k.Code), uint8(k.Flags), U32(k.Vendor), kg))
+		fills = append(fills, func() error {
+			for j := range k.Kids {
+				x, err := late2(&k.Kids[j])
+				if err != nil {
+					return err
+				}
+				kg.AddAVP(x)
+			}
+			return nil
+		})
+	}
+	out := diam.NewAVP(U32(a.Code), uint8(a.Flags), U32(a.Vendor), g)
+	for _, f := range fills {
+		if err := f(); err != nil {
+			return nil, err
+		}
+	}
+	return out, nil
+}
 
 func dataStyle(a *AVP, style string) (datatype.Type, error) {
 	if a.Kind != "grouped" || style == "newavp" || style == "byname" {
